@@ -31,8 +31,9 @@ type C05Case struct {
 	Offset   int               `json:"offset,omitempty"`
 	Spelling string            `json:"spelling,omitempty"` // "limit" | "limit-offset" | "comma"
 	Distinct bool              `json:"distinct,omitempty"`
-	Big      *BigKey           `json:"big,omitempty"`      // one key column handed over as native integers far beyond 2^53 (order-isomorphic to the small values in doc)
-	GoTypes  map[string]string `json:"go_types,omitempty"` // numeric columns handed over as native Go values of that type // SELECT DISTINCT: the window applies to the de-duplicated sequence
+	UnionWin bool              `json:"union_win,omitempty"` // also run (ordered window) UNION ALL (window of the reversed order): each arm is its own sequence
+	Big      *BigKey           `json:"big,omitempty"`       // one key column handed over as native integers far beyond 2^53 (order-isomorphic to the small values in doc)
+	GoTypes  map[string]string `json:"go_types,omitempty"`  // numeric columns handed over as native Go values of that type // SELECT DISTINCT: the window applies to the de-duplicated sequence
 }
 
 func init() {
@@ -43,7 +44,7 @@ func init() {
 			"nullable), an optional WHERE, an optional DISTINCT, numeric columns also as native Go types (one key column sometimes as int64 / int / uint64 / uint beyond 2^53) and an optional LIMIT n [OFFSET m] in all three spellings with n,m in 0..len+3; oracles: the unordered " +
 			"result equals the reference filter; the ordered result is a permutation of it whose adjacent pairs respect the key list " +
 			"lexicographically with NULL keys last (single key); the limited result has length min(n, max(0,|S|-m)), its key tuples equal those of " +
-			"S[m:m+n], it is a sub-multiset of S, and without ORDER BY it equals S[m:m+n] exactly; never an error. Non-trivial: >=2 rows not already " +
+			"S[m:m+n], it is a sub-multiset of S, and without ORDER BY it equals S[m:m+n] exactly; a third of the ordered windows also run as `(window) UNION ALL (window of the reversed order)` whose arms must be the windows of their own sequences; never an error. Non-trivial: >=2 rows not already " +
 			"in order, or a window with m+n > |S| > m.",
 		Assumptions: []string{
 			"a third of the cases run inside an envelope that must not change the result: PostgresEscapingDialect / IdiomaticArrays on (the query uses neither double quotes nor brackets), Wrapped() with FROM root.<table>, tables handed over as []map[string]any, a second execution on the same input object, and the same query text run before on a different document",
@@ -125,10 +126,30 @@ func genC05(t *rapid.T) any {
 		dir := rapid.SampledFrom([]string{"", "ASC", "DESC", "DESC"}).Draw(t, fmt.Sprintf("dir%d", i))
 		c.Keys = append(c.Keys, OrderKey{Col: col.Name, Dir: dir, Desc: dir == "DESC"})
 	}
-	if len(c.Keys) > 1 {
-		// a nullable key slipped in only if it is the single key
-		for _, k := range c.Keys {
-			_ = k
+	if len(c.Keys) > 0 && rapid.IntRange(0, 5).Draw(t, "keywhere") == 0 {
+		// a WHERE that names a sort key: equalities with constants below OR / NOT, next to other conjuncts
+		// (the key is not constant in the surviving rows, however much the predicate looks like pinning it)
+		src := c.Keys[0].Col
+		for i, a := range c.Alias {
+			if a == src {
+				src = c.Cols[i]
+				break
+			}
+		}
+		if col := tb.Col(src); col != nil && !col.Nullable {
+			eq := func(l string) *sq.E { return sq.Cmp("=", sq.Col(src), constFor(t, col, l)) }
+			switch rapid.IntRange(0, 4).Draw(t, "keywhere.form") {
+			case 0:
+				c.Where = sq.Or(eq("kw.a"), eq("kw.b"))
+			case 1:
+				c.Where = sq.Not(sq.Par(eq("kw.a")))
+			case 2:
+				c.Where = sq.Or(eq("kw.a"), genPred(t, tb, &PredSpec{Core: true}, 1, "kw.o"))
+			case 3:
+				c.Where = sq.And(sq.Par(sq.Or(eq("kw.a"), eq("kw.b"))), genPred(t, tb, &PredSpec{Core: true}, 1, "kw.o"))
+			default:
+				c.Where = sq.And(eq("kw.a"), genPred(t, tb, &PredSpec{Core: true}, 1, "kw.o"))
+			}
 		}
 	}
 	c.Distinct = rapid.IntRange(0, 3).Draw(t, "distinct") == 0
@@ -154,6 +175,7 @@ func genC05(t *rapid.T) any {
 			}
 		}
 	}
+	c.UnionWin = rapid.IntRange(0, 2).Draw(t, "unionwin") == 0
 	if rapid.IntRange(0, 3).Draw(t, "haslimit") != 0 {
 		c.HasLimit = true
 		n := len(tb.Rows)
@@ -403,6 +425,45 @@ func checkC05(c *C05Case) Result {
 		}
 	}
 	res.NonTrivial = (len(c.Keys) > 0 && len(u.Rows) >= 2 && outOfOrder) || straddle
+	if c.UnionWin && c.HasLimit && len(c.Keys) > 0 {
+		// two windows of the same table in one statement: the first arm in the requested order, the second in
+		// the reversed one; each arm is the window of its own sequence (compared by key tuples, ties are free)
+		rev := *c
+		rev.Keys = nil
+		for _, k := range c.Keys {
+			r := OrderKey{Col: k.Col, Desc: !k.Desc, Dir: "DESC"}
+			if k.Desc {
+				r.Dir = []string{"", "ASC"}[len(c.Keys)%2]
+			}
+			rev.Keys = append(rev.Keys, r)
+		}
+		s2 := c.exec(rev.sql(true, false))
+		usql := "(" + c.sql(true, true) + ") UNION ALL (" + rev.sql(true, true) + ")"
+		un := c.exec(usql)
+		res.Execs += 2
+		if !s2.OK() || !un.OK() {
+			res.Violation = fmt.Sprintf("%s\n  got %s\n  (reversed sequence: %s)", usql, un.Describe(), s2.Describe())
+			return res
+		}
+		win := func(seq []any) []any {
+			lo := minInt(c.Offset, len(seq))
+			hi := len(seq)
+			if c.Limit < len(seq)-lo {
+				hi = lo + c.Limit
+			}
+			return seq[lo:hi]
+		}
+		want := append(append([]any{}, win(s.Rows)...), win(s2.Rows)...)
+		ok := len(un.Rows) == len(want)
+		for i := 0; ok && i < len(want); i++ {
+			ok = val.Equal(keyTuple(un.Rows[i], c.Keys), keyTuple(want[i], c.Keys))
+		}
+		if !ok {
+			res.Violation = fmt.Sprintf("%s\n  the arms are not the windows of their own sequences\n  expected key tuples of %s\n  got %s", usql, val.JSON(want), val.JSON(un.Rows))
+			return res
+		}
+		res.Labels = append(res.Labels, "union-of-two-windows")
+	}
 	return res
 }
 
